@@ -11,10 +11,10 @@ and, at its interface, of the parts of the third-party crate tls-parser 0.12.2 t
 `parse_tls_plaintext` (record header, `MAX_RECORD_LEN`, per-record-type message loop),
 `parse_tls_message_handshake` (framing of every handshake type; the body of a ClientHello in full,
 of the other types only success/failure), `parse_tls_extensions` (the extension walk; bodies of
-SNI / supported_groups / ec_point_formats / signature_algorithms / ALPN decoded, GREASE-like types
-`t & 0x0f0f == 0x0a0a` mapped to the single type 0xfafa as tls-parser does; for every other type only
-success/failure of the body parser — a parameter `bodyOk` of the model, instantiated in the driver
-by `knownBodyOk`, which mirrors the 21 remaining body parsers tls-parser has).
+SNI / supported_groups / ec_point_formats / signature_algorithms / ALPN / supported_versions decoded,
+GREASE-like types `t & 0x0f0f == 0x0a0a` filed under `Grease` with their wire type as tls-parser does;
+for every other type only success/failure of the body parser — a parameter `bodyOk` of the model,
+instantiated in the driver by `knownBodyOk`, which mirrors the 20 remaining body parsers tls-parser has).
 
 nom semantics used: `streaming` primitives return `Incomplete` on short input, `complete(p)` turns
 that into `Error`, `many0/many1(complete(p))` stop at the first `Error` keeping what was parsed
@@ -129,7 +129,8 @@ def generateJa4 (sha : Bytes → Bytes) (s : Signature) (original : Bool) : Ja4P
   let ss := hexList fs
   let c := if ss.isEmpty then es else if es.isEmpty then ss else es ++ ['_'] ++ ss
   { a := a, b := b, c := c,
-    full := a ++ ['_'] ++ hash12 sha b ++ ['_'] ++ hash12 sha c,
+    full := a ++ ['_'] ++ (if cb.isEmpty then emptyListHash.toList else hash12 sha b) ++ ['_']
+      ++ (if ce.isEmpty then emptyListHash.toList else hash12 sha c),
     raw := a ++ ['_'] ++ b ++ ['_'] ++ c }
 
 /-! ## nom primitives (on `List UInt8`, `Option` = `Ok`/`Error|Incomplete` under `complete`) -/
@@ -176,14 +177,17 @@ inductive ExtV where
   | pointFormats (b : Bytes)
   | sigAlgs (l : List Nat)
   | alpn (l : List Bytes)
-  | grease
+  | supportedVersions (l : List Nat)
+  | grease (wireType : Nat)
   | other (ty : Nat)
   deriving DecidableEq, Repr, Inhabited
 
-/-- `TlsExtensionType::from(&ext)` — every GREASE-like extension reports `TlsExtensionType::Grease = 0xfafa`. -/
+/-- the `ext_type` of the extraction loop: `TlsExtension::Grease(t, _) => *t` (the type on the wire — tls-parser
+itself would report `TlsExtensionType::Grease = 0xfafa` for every GREASE-like type), otherwise
+`TlsExtensionType::from(&ext)`. -/
 def ExtV.type : ExtV → Nat
   | .sni _ => 0 | .curves _ => 10 | .pointFormats _ => 11 | .sigAlgs _ => 13 | .alpn _ => 16
-  | .grease => 0xfafa | .other t => t
+  | .supportedVersions _ => 43 | .grease t => t | .other t => t
 
 /-- `many0(complete(parse_tls_extension_sni_hostname))` -/
 def sniNames : Nat → Bytes → List (Nat × Bytes)
@@ -231,6 +235,14 @@ def parseSigAlgs (d : Bytes) : Option ExtV :=
   | some (l, _) => some (.sigAlgs (pairs16 l))
   | none => none
 
+/-- `parse_tls_extension_supported_versions_content`: a two-byte body is one version (ServerHello form),
+otherwise a length byte (not checked) and the rest as 16-bit versions (odd rest = error). -/
+def parseSupportedVersions (d : Bytes) : Option ExtV :=
+  match d with
+  | [a, b] => some (.supportedVersions [be16 a b])
+  | [] => none
+  | _ :: r => (chunks16? r).map .supportedVersions
+
 /-- `ext_type & 0x0f0f == 0x0a0a` (for `ext_type < 65536`). -/
 def greaseLike (t : Nat) : Bool := t % 16 == 10 && t / 256 % 16 == 10
 
@@ -242,7 +254,6 @@ def knownBodyOk (ty : Nat) (d : Bytes) : Bool :=
   else if ty = 22 ∨ ty = 23 ∨ ty = 49 ∨ ty = 13172 then decide (n = 0)      -- must be empty
   else if ty = 28 then decide (2 ≤ n)                                      -- be_u16
   else if ty = 42 then decide (n = 0 ∨ 4 ≤ n)                              -- cond(len > 0, be_u32)
-  else if ty = 43 then decide (n = 2 ∨ n % 2 = 1)                          -- supported_versions
   else if ty = 45 ∨ ty = 0xff01 then (lengthData8? d).isSome
   else if ty = 48 then (lengthData16? d).isSome
   else if ty = 0xffce then                                                 -- encrypted_server_name
@@ -265,7 +276,7 @@ def parseExt (bodyOk : Nat → Bytes → Bool) (i : Bytes) : Option (ExtV × Byt
     match lengthData16? r with
     | none => none
     | some (d, rest) =>
-      if greaseLike ty then some (.grease, rest)
+      if greaseLike ty then some (.grease ty, rest)
       else
         let v :=
           if ty = 0 then parseSni d
@@ -273,6 +284,7 @@ def parseExt (bodyOk : Nat → Bytes → Bool) (i : Bytes) : Option (ExtV × Byt
           else if ty = 11 then parsePointFormats d
           else if ty = 13 then parseSigAlgs d
           else if ty = 16 then parseAlpn d
+          else if ty = 43 then parseSupportedVersions d
           else if bodyOk ty d then some (.other ty) else none
         v.map (fun x => (x, rest))
 
@@ -440,7 +452,10 @@ def determineVersion (legacy : Nat) (exts : List Nat) : Version :=
   if exts.contains (extIdOfName svExtName) then Version.ofName svForces
   else match legacyArms.lookup (legacyName legacy) with
     | some n => Version.ofName n
-    | none => Version.ofName legacyDefault
+    | none =>
+      match legacyCodeArms.lookup legacy with
+      | some n => Version.ofName n
+      | none => if legacyDefaultCarriesCode then .unknown legacy else Version.ofName legacyDefault
 
 /-- `std::str::from_utf8(..).is_ok()` (Unicode table 3-7). -/
 def utf8Step : Bytes → Option Bytes
@@ -477,6 +492,7 @@ structure Acc where
   sigAlgs : List Nat := []
   curves : List Nat := []
   pointFormats : List Nat := []
+  supportedVersions : Option (List Nat) := none
   deriving DecidableEq, Repr, Inhabited
 
 def Acc.step (a : Acc) (x : ExtV) : Acc :=
@@ -487,7 +503,19 @@ def Acc.step (a : Acc) (x : ExtV) : Acc :=
   | .sigAlgs l => { a with sigAlgs := l }
   | .curves l => { a with curves := l }
   | .pointFormats b => { a with pointFormats := b.map (·.toNat) }
+  | .supportedVersions l => { a with supportedVersions := some l }
   | _ => a
+
+/-- `Iterator::max` -/
+def maxList : List Nat → Option Nat
+  | [] => none
+  | x :: r => some (r.foldl max x)
+
+/-- `highest_supported` and the `let version = match highest_supported { … }` of the extraction -/
+def versionOf (legacy : Nat) (a : Acc) : Version :=
+  match a.supportedVersions.bind (fun vs => maxList (filterGrease vs)) with
+  | some highest => determineVersion highest []
+  | none => determineVersion legacy a.extensions
 
 /-- `if let Some(ext_data) = &client_hello.ext { parse_tls_extensions(ext_data) }` -/
 def parsedExts (bodyOk : Nat → Bytes → Bool) : Option Bytes → List ExtV
@@ -498,7 +526,7 @@ def parsedExts (bodyOk : Nat → Bytes → Bool) : Option Bytes → List ExtV
 def extractSig (bodyOk : Nat → Bytes → Bool) (h : Hello) : Signature :=
   let xs := parsedExts bodyOk h.ext
   let a := xs.foldl Acc.step {}
-  { version := determineVersion h.version a.extensions,
+  { version := versionOf h.version a,
     ciphers := filterGrease h.ciphers,
     extensions := a.extensions,
     curves := a.curves, pointFormats := a.pointFormats, sigAlgs := a.sigAlgs,
